@@ -105,7 +105,7 @@ def rule_send_metric(fm, rep, rid='R2'):
         return
     e = emits[0]
     ct = norm(T.call_term(e))
-    okr = self_field_name(ct[2][0]) == client_field(cad, 'sink')
+    okr = on_self_path(ct[2][0], client_field(cad, 'sink'))
     okt = term_callee_is(peel(ct[2][1]), '<M as cadence::types::Metric>::as_metric_str') and peel(peel(ct[2][1])[2][0]) == ('param', 2)
     rep.ob(rid, 'send_metric/emits-the-metric-text', okr and okt, b.where(e), 'self.sink.emit(metric.as_metric_str())' if okr and okt else 'emit(%s, %s)' % (fmt(ct[2][0])[:60], fmt(ct[2][1])[:80]))
     from .writer import _is_err_of
@@ -122,6 +122,26 @@ def rule_send_metric(fm, rep, rid='R2'):
             if callee_is(t, SINK_TRAIT + '::emit'):
                 others.append((x, bi))
     rep.ob(rid, 'emit-only-in-send_metric', not others, others[0][0].where(others[0][1]) if others else '', 'no other client/builder code emits' if not others else 'the sink is also driven from %s' % [x.short() for x, _ in others])
+
+
+def _self_variant_switch(b, T):
+    """first switch (in block order from the entry) on the variant of something stored in self"""
+    seen = []
+    st = [0]
+    while st:
+        bi = st.pop(0)
+        if bi in seen:
+            continue
+        seen.append(bi)
+        blk = b.blocks[bi]
+        if blk['cleanup']:
+            continue
+        if blk['term']['k'] == 'switch':
+            d = norm(T.switch_facts(bi)[0])
+            if d[0] == 'discr' and field_path_of(d[1]) is not None:
+                return bi
+        st.extend(b.succs(bi, False))
+    return None
 
 
 def rule_error_type(fm, rep, rid='R3'):
@@ -143,10 +163,12 @@ def rule_error_type(fm, rep, rid='R3'):
         kb = one(rep, rid, 'MetricError::kind', kd)
         if kb is not None and ok:
             rep.analysed(kb)
+            kb = inl(cad, kb)
             T = Terms(kb)
             okk = False
-            if kb.blocks[0]['term']['k'] == 'switch':
-                dt, edges = T.switch_facts(0)
+            sw0 = _self_variant_switch(kb, T)
+            if sw0 is not None:
+                dt, edges = T.switch_facts(sw0)
                 res = {}
                 for s, labs in edges.items():
                     for lab in labs:
@@ -160,10 +182,12 @@ def rule_error_type(fm, rep, rid='R3'):
         src = [x for x in cad.all_bodies if x.impl_trait == 'core::error::Error' and (x.impl_self or '') == ME and x.name == 'source']
         sb = one(rep, rid, 'Error::source for MetricError', src)
         if sb is not None and ok:
+            sb = inl(cad, sb)
             T = Terms(sb)
             okk = False
-            if sb.blocks[0]['term']['k'] == 'switch':
-                dt, edges = T.switch_facts(0)
+            sw0 = _self_variant_switch(sb, T)
+            if sw0 is not None:
+                dt, edges = T.switch_facts(sw0)
                 for s, labs in edges.items():
                     if ('variant', self_variant) in labs:
                         r = ret_terms(T, [s])
@@ -196,7 +220,7 @@ def rule_quiet_send(fm, rep, rid='R4'):
     okc = len(hc) == 1 and count_events(cb, lambda x: x in hc) == {1}
     if okc:
         ct = norm(Tc.call_term(hc[0]))
-        okc = self_field_name(ct[2][0]) == client_field(cad, 'errors') and ct[2][1] == ('tuple', (('param', 2),))
+        okc = on_self_path(ct[2][0], client_field(cad, 'errors')) and ct[2][1] == ('tuple', (('param', 2),))
     rep.ob(rid, 'consume_error/calls-handler-once', okc, cb.where(), 'consume_error(e) = (self.<handler>)(e), once' if okc else 'consume_error does not invoke the configured handler exactly once with its argument')
     # send with private helpers inlined, try_send and consume_error kept as events
     ib = inl(cad, b, never=lambda x: x.path in (fm.try_send.path, cb.path))
@@ -288,10 +312,11 @@ def rule_rejection(fm, rep, rid='R5'):
         rep.ob(rid, '%s/converts-the-argument' % meth, okv, b.where(tv[0]), 'try_to_value(value argument)')
     rep.floor(rid, 'tagged entry points', n, 7)
     if len(fe) == 1:
-        rts = ret_terms(Terms(fe[0]), [0])
+        rts = ret_terms(Terms(inl(cad, fe[0])), [0])
         ok = False
         if len(rts) == 1:
             r = dict(list(rts)[0][3]).get('repr') if list(rts)[0][0] == 'adt' else None
+            r = norm(r) if r is not None else None
             ok = r is not None and r[0] == 'adt' and r[2] == 'Error' and dict(r[3])['0'] == ('param', 1) and peel(dict(r[3])['1']) == ('param', 2)
         rep.ob(rid, 'from_error-stores-error-state', ok, fe[0].where(), 'from_error(e, c) = builder in state Error(e, c)')
     else:
@@ -347,9 +372,9 @@ def mentions_client_field(cad, t, role, depth=0):
     """Does term t (an argument built inside a *_with_tags body) derive from the client's field of that role?
     Local helper calls taking only &self are expanded through their return term."""
     from .. import symb
-    fld = client_field(cad, role)
+    fpath = client_field_path(cad, role)
     for y in walk(t):
-        if y[0] == 'field' and y[2] == fld and peel(y[1]) == ('param', 1):
+        if y[0] == 'field' and fpath and y[2] == fpath[-1] and field_path_of(y) == fpath:
             return True
         if depth < 2 and y[0] == 'call' and isinstance(y[1], str) and len(y[2]) == 1 and peel(y[2][0]) == ('param', 1):
             bb = symb._body(y[1])
@@ -427,7 +452,7 @@ def rule_decoration(fm, rep, rid='R1', kinds=True):
                 fs = dict(agg[3])
                 tvv = fs.get(fm.roles['type'])
                 okk = tvv is not None and tvv[0] == 'adt' and tvv[2] == kind and \
-                    self_field_name(fs.get(fm.roles['prefix'])) == client_field(cad, 'prefix') and \
+                    on_self_path(fs.get(fm.roles['prefix']), client_field(cad, 'prefix')) and \
                     peel(fs.get(fm.roles['key'])) == ('param', 2) and fs.get(fm.roles['val']) == field_of(('payload', vct, 'Ok'), '0', 0)
             okt = mty in b.locals[0]
             rep.ob('R4', '%s/kind-wiring' % meth, bool(okk and okt), b.where(),
@@ -450,7 +475,7 @@ def rule_tag_plumbing(fm, rep, rid='R2'):
         T = Terms(b)
         if shape == 'cid':
             rts = ret_terms(T, [0])
-            v = _field_value(list(rts)[0], client_field(cad, 'container_id', SCB)) if len(rts) == 1 else None
+            v = _field_value(list(rts)[0], client_field_path(cad, 'container_id', SCB)) if len(rts) == 1 else None
             ok = v is not None and v[0] == 'adt' and v[2] == 'Some' and term_callee_is(dict(v[3])['0'], 'as alloc::string::ToString>::to_string') \
                 and peel(dict(v[3])['0'][2][0]) == ('param', 2)
             rep.ob(rid, 'builder/with_container_id', ok, b.where(), 'container_id = Some(id.to_string())' if ok else 'stores %s' % (fmt(v) if v else '?'))
@@ -460,7 +485,7 @@ def rule_tag_plumbing(fm, rep, rid='R2'):
         if ok:
             ct = norm(T.call_term(pushes[0]))
             item = ct[2][1]
-            ok = self_field_name(strip_mut(ct[2][0])) == client_field(cad, 'tags', SCB) and item[0] == 'tuple'
+            ok = on_self_path(strip_mut(ct[2][0]), client_field(cad, 'tags', SCB)) and item[0] == 'tuple'
             if ok:
                 k, v = item[1]
 
@@ -485,11 +510,11 @@ def rule_tag_plumbing(fm, rep, rid='R2'):
             fs = dict(list(rts)[0][3])
             badf = []
             for role in ('prefix', 'sink', 'errors', 'tags', 'container_id'):
-                cf, bf = client_field(cad, role), client_field(cad, role, SCB)
-                if cf is None or bf is None or deep_peel(fs.get(cf, ('x',))) != ('field', ('param', 1), bf):
-                    badf.append(cf or role)
+                cf, bf = client_field_path(cad, role), client_field_path(cad, role, SCB)
+                if cf is None or bf is None or deep_peel(get_path(list(rts)[0], cf)) != mk_path(('param', 1), bf):
+                    badf.append('.'.join(cf) if cf else role)
             ok = not badf
-            msg = 'fields not moved unchanged from the builder: %s' % [(n, fmt(fs.get(n, ('?',)))[:80]) for n in badf]
+            msg = 'fields not moved unchanged from the builder: %s' % [(n, fmt(get_path(list(rts)[0], tuple(n.split('.'))))[:80]) for n in badf]
         rep.ob(rid, 'from_builder-moves-config-unchanged', ok, b.where(), 'prefix, sink, errors, tags, container_id are moved as configured' if ok else msg)
     nb = one(rep, 'R5', 'StatsdClientBuilder::new', cad.method(SCB, 'new'))
     if nb is not None:
@@ -497,10 +522,9 @@ def rule_tag_plumbing(fm, rep, rid='R2'):
         ok = False
         if len(rts) == 1 and list(rts)[0][0] == 'adt':
             fs = dict(list(rts)[0][3])
-            ftags, fcid, fpre = (client_field(cad, r_, SCB) for r_ in ('tags', 'container_id', 'prefix'))
-            ok = term_callee_is(fs.get(ftags, ('x',)), 'alloc::vec::Vec::new') and fs.get(fcid, ('x',))[0] == 'adt' and fs[fcid][2] == 'None'
-            okp = term_callee_is(fs.get(fpre, ('x',)), 'cadence::client::StatsdClientBuilder::formatted_prefix') and peel(fs[fpre][2][0]) == ('param', 1)
-            rep.ob('R6', 'prefix-normalised-once', okp, nb.where(), 'builder.prefix = formatted_prefix(prefix argument)')
+            r0 = list(rts)[0]
+            vtags, vcid, vpre = (get_path(r0, client_field_path(cad, r_, SCB) or ('?',)) for r_ in ('tags', 'container_id', 'prefix'))
+            ok = term_callee_is(vtags, 'alloc::vec::Vec::new') and vcid[0] == 'adt' and vcid[2] == 'None'
         rep.ob('R5', 'no-defaults-by-default', ok, nb.where(), 'a new builder has no default tags and no container id')
     # ---- how the default tags travel from the client field into the per-call formatter (by role, not by name)
     from .. import symb
@@ -638,11 +662,11 @@ def _formatter_tag_method(cad, fm, path):
 def _forward_view_of_tags(cad, x):
     """x is &self.tags / self.tags.iter() / self.tags.iter().map(|(k, v)| (k.as_deref(), v.as_str())) ..."""
     from .. import symb
-    fld = client_field(cad, 'tags')
+    fpath = client_field_path(cad, 'tags')
     y = x
     for _ in range(8):
         y = peel(y)
-        if y[0] == 'field' and y[2] == fld and peel(y[1]) == ('param', 1):
+        if y[0] == 'field' and fpath and y[2] == fpath[-1] and field_path_of(y) == fpath:
             return True, ''
         if y[0] == 'load':
             y = y[1]
@@ -739,52 +763,143 @@ def rule_incr_decr(fm, rep, rid='R4'):
 
 
 # ------------------------------------------------------------------ C01-R6 prefix
+def string_alternatives(T, t, depth=0):
+    """Symbolic content of a String valued term: list of alternatives, each a list of atoms ('lit', s) | ('val', term);
+    None if some step is not understood.  Handles String::new/with_capacity, format!(..), and a local filled by
+    push_str / push calls (the `mutated` chain of reaching borrows)."""
+    from .fmtout import _wf_atoms, OutEvents
+    t = norm(t)
+    while term_callee_is(t, 'core::hint::must_use'):
+        t = norm(t[2][0])
+    if depth > 8:
+        return None
+    if t[0] == 'phi':
+        out = []
+        for x in t[1]:
+            r = string_alternatives(T, x, depth + 1)
+            if r is None:
+                return None
+            out.extend(a for a in r if a not in out)
+        return out
+    if term_callee_is(t, 'alloc::string::String::new') or term_callee_is(t, 'alloc::string::String::with_capacity'):
+        return [[]]
+    if term_callee_is(t, 'alloc::fmt::format'):
+        try:
+            atoms = []
+            for a in _wf_atoms(t[2][0]):
+                if a[0] == 'lit':
+                    atoms.append(('lit', a[1]))
+                elif a[1] == 'display' and a[3]:
+                    atoms.append(('val', peel(a[2])))
+                else:
+                    return None
+            return [atoms]
+        except Exception:
+            return None
+    if t[0] == 'mutated':
+        base = string_alternatives(T, t[1], depth + 1)
+        if base is None:
+            return None
+        bi = t[2][0]
+        blk = T.body.blocks[bi]
+        if blk['term']['k'] != 'call':
+            return None
+        ct = norm(T.call_term(bi))
+        k = ct[1] if isinstance(ct[1], str) else ''
+        if k in OutEvents.PUSH_STR and len(ct[2]) == 2:
+            s = peel(ct[2][1])
+            atom = ('lit', s[1]) if s[0] == 'str' else ('val', s)
+        elif k in OutEvents.PUSH and len(ct[2]) == 2 and ct[2][1][0] == 'const' and ct[2][1][1] == 'char':
+            atom = ('lit', chr(int(ct[2][1][2])))
+        elif k in ('alloc::string::String::reserve', 'alloc::string::String::shrink_to_fit'):
+            return base
+        else:
+            return None
+        return [a + [atom] for a in base]
+    return None
+
+
+def _merge_lits(atoms):
+    out = []
+    for a in atoms:
+        if a[0] == 'lit' and out and out[-1][0] == 'lit':
+            out[-1] = ('lit', out[-1][1] + a[1])
+        elif a[0] == 'lit' and a[1] == '':
+            continue
+        else:
+            out.append(a)
+    return out
+
+
 def rule_prefix(fm, rep, rid='R6'):
+    """The prefix stored by the builder is "" for an empty argument, otherwise the argument without trailing dots plus
+    one dot; analysed on StatsdClientBuilder::new with private helpers inlined (wherever the normalisation lives)."""
     cad = fm.cad
-    b = one(rep, rid, 'StatsdClientBuilder::formatted_prefix', cad.method(SCB, 'formatted_prefix'))
-    if b is None:
+    nb = one(rep, rid, 'StatsdClientBuilder::new', cad.method(SCB, 'new'))
+    if nb is None:
         return
-    rep.analysed(b)
+    rep.analysed(nb)
+    b = inl(cad, nb)
+    for p_, _, _ in getattr(b, 'inlined', None) or []:
+        if p_ in cad.bodies:
+            rep.analysed(cad.bodies[p_])
     T = Terms(b)
-    sw = [bi for bi, blk in enumerate(b.blocks) if blk['term']['k'] == 'switch' and not blk['cleanup']]
+    ppath = client_field_path(cad, 'prefix', SCB)
     ok = False
-    msg = 'formatted_prefix has an unexpected shape'
+    msg = 'the prefix normalisation has an unexpected shape'
+    sw = []
+    for bi, blk in enumerate(b.blocks):
+        if blk['term']['k'] == 'switch' and not blk['cleanup'] and not blk.get('dead'):
+            d = norm(T.switch_facts(bi)[0])
+            if term_callee_is(d, 'core::str::is_empty') and peel(d[2][0]) == ('param', 1):
+                sw.append(bi)
+    if ppath is None:
+        rep.anchor_lost(rid, 'prefix field of the builder')
+        return
     if len(sw) == 1:
         dt, edges = T.switch_facts(sw[0])
-        d = norm(dt)
-        if term_callee_is(d, 'core::str::is_empty') and peel(d[2][0]) == ('param', 1):
-            te = [s for s, labs in edges.items() if ('bool', True) in labs]
-            fe = [s for s, labs in edges.items() if ('bool', False) in labs]
-            r1 = ret_terms(T, te)
-            r2 = ret_terms(T, fe)
-            ok1 = len(r1) == 1 and term_callee_is(list(r1)[0], 'alloc::string::String::new')
-            ok2 = False
-            if len(r2) == 1:
-                x = list(r2)[0]
-                while term_callee_is(x, 'core::hint::must_use'):
-                    x = x[2][0]
-                if term_callee_is(x, 'alloc::fmt::format'):
-                    from .fmtout import _wf_atoms
-                    try:
-                        atoms = _wf_atoms(x[2][0])
-                        if len(atoms) == 2 and atoms[0][0] == 'arg' and atoms[0][1] == 'display' and atoms[0][3] and atoms[1] == ('lit', '.'):
-                            a = peel(atoms[0][2])
-                            if term_callee_is(a, 'core::str::trim_end_matches') and peel(a[2][0]) == ('param', 1):
-                                pat = peel(a[2][1])
-                                ok2 = (pat[0] == 'const' and pat[1] == 'char' and pat[2] == '46') or pat == ('str', '.')
-                                if not ok2:
-                                    msg = 'prefix trimmed with pattern %s' % fmt(pat)
-                            else:
-                                msg = 'non-empty prefix is rendered from %s: every trailing dot must be removed (trim_end_matches(\'.\')) before one dot is appended' % fmt(a)[:100]
-                        else:
-                            msg = 'prefix template is %s' % atoms
-                    except Exception as e:
-                        msg = str(e)
-            ok = ok1 and ok2
-            if ok:
-                msg = 'empty -> "", otherwise trim_end_matches(\'.\') + "."'
-    rep.ob(rid, 'prefix-normalisation', ok, b.where(), msg)
-    # used by new() (checked in tag plumbing R6/prefix-normalised-once) and passed by the *_with_tags bodies (R4)
+        te = [s for s, labs in edges.items() if ('bool', True) in labs]
+        fe = [s for s, labs in edges.items() if ('bool', False) in labs]
+
+        def prefix_alts(starts, truth):
+            Tr = T.restrict(starts)
+            outs = []
+            for r in ret_terms(Tr, starts):
+                alts = string_alternatives(Tr, get_path(r, ppath))
+                if alts is None:
+                    return None
+                outs.extend(_merge_lits(a) for a in alts)
+            return outs
+        a1 = prefix_alts(te, True)
+        a2 = prefix_alts(fe, False)
+        ok1 = a1 is not None and bool(a1) and all(a == [] for a in a1)
+        ok2 = False
+        if a2 is None or not a2:
+            msg = 'cannot follow how a non-empty prefix is rendered'
+        else:
+            ok2 = True
+            for atoms in a2:
+                good = len(atoms) == 2 and atoms[0][0] == 'val' and atoms[1] == ('lit', '.')
+                if good:
+                    a = peel(atoms[0][1])
+                    if term_callee_is(a, 'core::str::trim_end_matches') and peel(a[2][0]) == ('param', 1):
+                        pat = peel(a[2][1])
+                        if not ((pat[0] == 'const' and pat[1] == 'char' and pat[2] == '46') or pat == ('str', '.')):
+                            good = False
+                            msg = 'prefix trimmed with pattern %s' % fmt(pat)
+                    else:
+                        good = False
+                        msg = 'non-empty prefix is rendered from %s: every trailing dot must be removed (trim_end_matches(\'.\')) before one dot is appended' % fmt(a)[:100]
+                elif ok2:
+                    msg = 'prefix template is %s' % [(x[0], x[1] if x[0] == 'lit' else fmt(x[1])[:60]) for x in atoms]
+                ok2 = ok2 and good
+        if not ok1 and ok2:
+            msg = 'an empty prefix is not kept empty'
+        ok = ok1 and ok2
+        if ok:
+            msg = 'empty -> "", otherwise trim_end_matches(\'.\') + "."'
+    rep.ob(rid, 'prefix-normalisation', ok, nb.where(), msg)
+    rep.ob(rid, 'prefix-normalised-once', ok, nb.where(), 'builder.prefix = normalised(prefix argument)' if ok else 'the builder does not store the normalised prefix argument')
 
 
 # ------------------------------------------------------------------ C01-R7 at least one value
@@ -795,8 +910,9 @@ def rule_nonempty(fm, rep, rid='R7'):
     for b in cad.all_bodies:
         if b.name != 'try_to_value' or not (b.impl_trait or '').startswith('cadence::client::To'):
             continue
-        T = Terms(b)
-        for r in ret_terms(T, [0]):
+        T = Terms(inl(cad, b))
+        from .. import symb
+        for r in sorted(set(leaf for r0 in ret_terms(T, [0]) for _, leaf in symb.split_cases(r0)), key=str):
             if r[0] == 'adt' and r[2] == 'Ok':
                 v = dict(r[3])['0']
                 if v[0] == 'adt' and v[1] == MV and v[2].startswith('Packed'):
